@@ -11,7 +11,7 @@
    commodity the price is expressed in); the priced commodity is the other end of the
    edge.  The graph is the list of its edges in creation order (boost adjacency_list
    with vecS: edge and adjacency iteration follow creation order). *)
-From LedgerV Require Import Base.Prelude Gen.PriceMemo Gen.CostDate Gen.PercentExpr.
+From LedgerV Require Import Base.Prelude Gen.PriceMemo Gen.CostDate Gen.PercentExpr Gen.FindPriceDispatch.
 Local Open Scope Z_scope.
 
 Definition comm := str.
@@ -172,33 +172,45 @@ Definition find_price_any (g : graph) (src : comm) (D : Z) : option price :=
    annotation `{..}` when the amount carries a (non-fixated) one *)
 Record holding : Type := mkHold { hq : Q; hc : comm; hlot : option comm }.
 
-(* `prim` = commodities flagged COMMODITY_PRIMARY (commodity.cc:48-55: the commodity a
-   recorded price is expressed in).  tgt = Some T for -X T, None for -V. *)
-Definition value (g : graph) (prim : list comm) (a : holding) (tgt : option comm) (D : Z)
+(* what a valuation needs to know about the pool: `v_prim` = commodities flagged
+   COMMODITY_PRIMARY (commodity.cc:48-55: the commodity a recorded price is expressed in);
+   `v_dflt` = pool().default_commodity (the last `D` directive / `commodity .. default`). *)
+Record vctx : Type := mkCtx { v_prim : list comm; v_dflt : option comm }.
+
+(* commodity_t::find_price(commodity, moment) (commodity.cc:118-187) without the memo: the
+   target is the commodity asked for, else the default commodity; looking a commodity up in
+   itself gives nothing; with a target the path search, without one the most recent neighbour.
+   Which of `target` / `commodity` the dispatch tests is re-read from the source
+   (Gen/FindPriceDispatch.v). *)
+Definition lookup (g : graph) (dflt : option comm) (src : comm) (commodity : option comm) (D : Z)
+  : option price :=
+  let target := match commodity with Some c => Some c | None => dflt end in
+  if (match target with Some t => comm_eqb src t | None => false end) then None
+  else match (if find_price_dispatch_on_target then target else commodity) with
+       | Some t => find_price g src t D
+       | None => find_price_any g src D
+       end.
+
+(* tgt = Some T for -X T, None for -V. *)
+Definition value (g : graph) (cx : vctx) (a : holding) (tgt : option comm) (D : Z)
   : option (Q * comm) :=
   let go :=
     match tgt with
     | Some _ => true
-    | None => negb (mem (hc a) prim)
+    | None => negb (mem (hc a) (v_prim cx))
     end in
   if go then
-    match (match tgt with Some t => Some t | None => hlot a end) with
-    | Some t =>
-        if comm_eqb (hc a) t then Some (Qred (hq a), t)
-        else match find_price g (hc a) t D with
-             | Some p => Some (Qred (pq p * hq a), pc p)
-             | None => None
-             end
-    | None =>
-        match find_price_any g (hc a) D with
-        | Some p => Some (Qred (pq p * hq a), pc p)
-        | None => None
-        end
-    end
+    let comm := match tgt with Some t => Some t | None => hlot a end in
+    if (match comm with Some t => comm_eqb (hc a) t | None => false end)
+    then Some (Qred (hq a), hc a)           (* with_commodity(comm->referent()) *)
+    else match lookup g (v_dflt cx) (hc a) comm D with
+         | Some p => Some (Qred (pq p * hq a), pc p)
+         | None => None
+         end
   else None.
 
 (* fn_market (report.cc:574-602): an amount that has no value is reported as it is *)
-Definition convert (g : graph) (prim : list comm) (a : holding) (tgt : option comm) (D : Z)
+Definition convert (g : graph) (prim : vctx) (a : holding) (tgt : option comm) (D : Z)
   : Q * comm :=
   match value g prim a tgt D with
   | Some r => r
@@ -217,7 +229,7 @@ Definition nonzero (b : list (comm * Q)) : list (comm * Q) :=
   filter (fun cq => negb (Qnum (snd cq) =? 0)) b.
 
 (* balance_t::value: every member is converted (or kept), results are added *)
-Definition convert_all (g : graph) (prim : list comm) (l : list holding) (tgt : option comm) (D : Z)
+Definition convert_all (g : graph) (prim : vctx) (l : list holding) (tgt : option comm) (D : Z)
   : list (comm * Q) :=
   nonzero (fold_left (fun b a => let r := convert g prim a tgt D in acc_add b (snd r) (fst r)) l []).
 
@@ -263,7 +275,10 @@ Inductive item : Type :=
          textual.cc:1615-1625 turns the cost into a total (per-unit cost times the amount; a total
          cost takes the sign of the amount), pool.cc:259-280 records |cost / amount| at midnight of
          the day finalize passes, unless the cost is virtual or the price is exactly zero *)
-| IImplied (d : dates) (xq : Q) (xc : comm) (yq : Q) (yc : comm).
+| IImplied (d : dates) (xq : Q) (xc : comm) (yq : Q) (yc : comm)
+| IDefault (c : comm).
+      (* `D AMOUNT` (textual.cc:533-539) or `commodity C` with `default`: c becomes the pool's
+         default commodity; records no price *)
       (* a transaction without costs and without a null posting whose postings sum to xq xc
          (the first posting's commodity) and yq yc: xact.cc:218-281 gives every xc posting the
          cost |yq / xq| per unit; `d` carries the dates of that posting *)
@@ -284,6 +299,7 @@ Definition entry_of_with (src : cost_date_src) (use_aux : bool) (i : item) : opt
       let pu := Qred (Qabs' (Qdiv yq xq)) in
       if Qnum pu =? 0 then None
       else Some (mkEntry (midnight (cost_day src use_aux d)) xc (mkPrice pu yc))
+  | IDefault _ => None
   end.
 
 (* The journal is read before the report options are normalised (global.cc:237-239;
@@ -300,6 +316,14 @@ Fixpoint history_of (l : list item) : history :=
   | i :: l' => match entry_of i with Some e => e :: history_of l' | None => history_of l' end
   end.
 
+(* the default commodity once the journal has been read: the last directive wins *)
+Fixpoint default_of (l : list item) (acc : option comm) : option comm :=
+  match l with
+  | [] => acc
+  | IDefault c :: r => default_of r (Some c)
+  | _ :: r => default_of r acc
+  end.
+
 Definition prims (h : history) : list comm :=
   map (fun e => pc (e_pr e)) (filter (fun e => negb (comm_eqb (e_src e) (pc (e_pr e)))) h).
 
@@ -308,7 +332,7 @@ Definition prims (h : history) : list comm :=
 (* `bal -X T --now D` / `bal -V --now D`: one account's display_total *)
 Definition bal_row (l : list item) (held : list holding) (tgt : option comm) (D : Z) : list (comm * Q) :=
   let h := history_of l in
-  convert_all (build h) (prims h) held tgt D.
+  convert_all (build h) (mkCtx (prims h) (default_of l None)) held tgt D.
 
 (* `bal --percent -X T` / `--percent -V` (report.cc:167-177): the total expression becomes
      (__tmp = market(parent.total, value_date, exchange);
@@ -331,6 +355,15 @@ Definition percent_of (n d : list (comm * Q)) : pres :=
   | _ => PErr
   end.
 
+(* the denominator of a share.  NOTE: `__tmp` is tested for truth with amount_t::is_zero, i.e. at
+   the DISPLAY precision of its commodity, which this model does not carry: a parent value that
+   is not zero but prints as zero (|value| < 1/2 unit of the last displayed digit) makes ledger
+   answer 0 for every share.  The harness leaves reports whose parent value is below 1 in
+   absolute value out of the comparison (see percent_den). *)
+Definition percent_den (l : list item) (parent_held : list holding) (tgt : option comm) (D : Z)
+  : list (comm * Q) :=
+  bal_row l parent_held (if percent_denominator_targeted then tgt else None) D.
+
 Definition percent_row (l : list item) (held parent_held : list holding) (tgt : option comm) (D : Z) : pres :=
   let tn := if percent_numerator_targeted then tgt else None in
   let td := if percent_denominator_targeted then tgt else None in
@@ -338,7 +371,7 @@ Definition percent_row (l : list item) (held parent_held : list holding) (tgt : 
 
 (* `reg -X T`: in a posting's scope value_date is the posting's date (post.cc:353-360):
    display_amount and the running display_total are valued at midnight of that date *)
-Fixpoint reg_rows (g : graph) (prim : list comm) (tgt : option comm) (seen : list holding)
+Fixpoint reg_rows (g : graph) (prim : vctx) (tgt : option comm) (seen : list holding)
   (posts : list (Z * holding)) : list (list (comm * Q) * list (comm * Q)) :=
   match posts with
   | [] => []
@@ -349,7 +382,7 @@ Fixpoint reg_rows (g : graph) (prim : list comm) (tgt : option comm) (seen : lis
   end.
 
 Definition reg_report (l : list item) (tgt : option comm) (posts : list (Z * holding)) :=
-  let h := history_of l in reg_rows (build h) (prims h) tgt [] posts.
+  let h := history_of l in reg_rows (build h) (mkCtx (prims h) (default_of l None)) tgt [] posts.
 
 (* `prices --now D` (iterators.cc:139-160, history.cc:322-372): for a commodity c that occurs
    in a posting, every entry not after D of every usable edge at c whose price is not
